@@ -267,6 +267,7 @@ pub fn weights_for(profile: &str) -> Weights {
             w.drain = 20;
             w.deep_audit = true;
             w.start_collect = 30;
+            w.start_hint = 20;
             w.maxcap = 200;
         }
         "collect" => {
